@@ -149,6 +149,7 @@ func emitAugmentOpts(id string, content []byte, files map[string]string, base st
 	}
 	defer os.RemoveAll(base)
 	snap := ""
+	rendered := true
 	func() {
 		defer func() {
 			if e := recover(); e != nil {
@@ -165,6 +166,15 @@ func emitAugmentOpts(id string, content []byte, files map[string]string, base st
 			snap = "nil"
 		} else {
 			snap = sexpGoroutines(s.Goroutines)
+			// rendering the arguments (what pp does for every frame, in order) must not change any of them
+			for _, g := range s.Goroutines {
+				for i := range g.Stack.Calls {
+					_ = g.Stack.Calls[i].Args.String()
+				}
+			}
+			if sexpGoroutines(s.Goroutines) != snap {
+				rendered = false
+			}
 		}
 	}()
 	// the same dump without source analysis: Values must be identical (C19: raw values never change)
@@ -216,6 +226,9 @@ func emitAugmentOpts(id string, content []byte, files map[string]string, base st
 			}
 		}
 	}()
+	if !rendered && named == "1" {
+		named = "S"
+	}
 	emit("augment", id, hexs(content), fmtFS(files), frames, floats, snap, plain, named)
 }
 
@@ -377,7 +390,8 @@ func opAugment(r *rand.Rand, n int, tier string, seed int64) {
 			for _, w := range words {
 				args = append(args, dArg{V: w})
 			}
-			gr.Frames = append(gr.Frames, dFrame{Sym: dSym{Pkg: x.pkg, Name: f.name}, Args: args, File: x.file, Line: ln, Off: " +0x1d"})
+			// (the runtime elides the words beyond the tenth: the marker after the printed ones)
+			gr.Frames = append(gr.Frames, dFrame{Sym: dSym{Pkg: x.pkg, Name: f.name}, Args: args, ArgsElided: len(args) > 0 && r.Intn(5) == 0, File: x.file, Line: ln, Off: " +0x1d"})
 			td := "none"
 			if !noFunc {
 				var hx []string
